@@ -16,10 +16,11 @@ use std::net::IpAddr;
 use std::sync::Arc;
 use std::time::Duration;
 
-const ADDRS: [&str; 3] = ["10.0.0.1", "10.0.0.2", "2001:db8::1"];
+// two IPv4 addresses, one IPv6, and the IPv4-mapped IPv6 form of the first (a distinct client address)
+const ADDRS: [&str; 4] = ["10.0.0.1", "10.0.0.2", "2001:db8::1", "::ffff:10.0.0.1"];
 
 fn addr(i: u8) -> IpAddr {
-    ADDRS[i as usize % 3].parse().unwrap()
+    ADDRS[i as usize % 4].parse().unwrap()
 }
 
 /// the eight recording operations
@@ -79,11 +80,11 @@ fn kind_index(k: Kind) -> usize {
     KINDS.iter().position(|x| *x == k).unwrap()
 }
 
-type Snapshot = ([[u64; 9]; 3], u64, u64);
+type Snapshot = ([[u64; 9]; 4], u64, u64);
 
 fn snapshot(s: &PerClientStats) -> Snapshot {
-    let mut a = [[0u64; 9]; 3];
-    for i in 0..3u8 {
+    let mut a = [[0u64; 9]; 4];
+    for i in 0..4u8 {
         a[i as usize] = counters(s.stats_for_client(&addr(i)));
     }
     (a, s.num_overflows(), s.total_unique_clients())
@@ -128,7 +129,7 @@ fn check_history(ctx: &mut Ctx, h: &History) -> Res {
         }
         let after = snapshot(&per);
         // exactly one of {that kind's counter of that address, overflow} changed
-        let ai = op.addr as usize % 3;
+        let ai = op.addr as usize % 4;
         let ki = kind_index(op.kind);
         let is_resp = matches!(op.kind, Kind::RfcResp | Kind::ClassicResp);
         let mut want_counted = before.clone();
@@ -152,7 +153,7 @@ fn check_history(ctx: &mut Ctx, h: &History) -> Res {
         if after.2 > limit as u64 {
             return ctx.fail("limit-exceeded", format!("limit {} but {} tracked addresses after op #{} {:?}", limit, after.2, n, op));
         }
-        let tracked = (0..3u8).filter(|i| per.stats_for_client(&addr(*i)).is_some()).count() as u64;
+        let tracked = (0..4u8).filter(|i| per.stats_for_client(&addr(*i)).is_some()).count() as u64;
         if tracked != after.2 {
             return ctx.fail("unique-clients-inconsistent", format!("total_unique_clients {} but {} of the pool addresses are tracked", after.2, tracked));
         }
@@ -170,6 +171,9 @@ fn check_history(ctx: &mut Ctx, h: &History) -> Res {
 
 #[derive(Debug, Clone, Serialize, Deserialize)]
 pub struct SplitCase {
+    /// also let the reporter persist its merged map (zstd-compressed CSV) and compare the decoded file
+    #[serde(default)]
+    pub csv: bool,
     pub workers: u8,
     /// (worker, op) in global order; `snap` = that worker publishes a snapshot (iter -> queue -> clear) after the op
     pub events: Vec<(u8, Op, bool)>,
@@ -206,7 +210,8 @@ fn check_split(ctx: &mut Ctx, c: &SplitCase) -> Res {
     for r in recs.iter_mut() {
         publish(r, &queue);
     }
-    let mut reporter = Reporter::new(queue.clone(), &Duration::from_secs(3600), None);
+    let dir = if c.csv { Some(crate::proclab::scratch_dir("c17csv")) } else { None };
+    let mut reporter = Reporter::new(queue.clone(), &Duration::from_secs(3600), dir.clone());
     if let Err(p) = no_unwind(|| reporter.receive_client_stats()) {
         return ctx.fail("reporter-panic", p);
     }
@@ -219,6 +224,41 @@ fn check_split(ctx: &mut Ctx, c: &SplitCase) -> Res {
     }
     if got != model {
         return ctx.fail("merge-loses-or-invents-events", format!("{} workers, snapshots {:?}: merged {:?} but the per-address sums of the recorded events are {:?}", nw, snaps, got, model));
+    }
+    if let Some(dir) = dir {
+        // what the reporter persists must be the same per-address sums
+        let r = no_unwind(|| reporter.report());
+        let mut rows: BTreeMap<IpAddr, [u64; 9]> = BTreeMap::new();
+        let mut files = 0;
+        if let Ok(rd) = std::fs::read_dir(&dir) {
+            for e in rd.flatten() {
+                files += 1;
+                let raw = std::fs::read(e.path()).unwrap_or_default();
+                let txt = zstd::stream::decode_all(&raw[..]).unwrap_or_default();
+                let mut rdr = csv::ReaderBuilder::new().has_headers(true).from_reader(&txt[..]);
+                let hdr: Vec<String> = rdr.headers().map(|h| h.iter().map(|x| x.to_string()).collect()).unwrap_or_default();
+                let col = |name: &str| hdr.iter().position(|h| h == name);
+                let names = ["rfc_requests", "classic_requests", "invalid_requests", "failed_send_attempts", "retried_send_attempts", "health_checks", "rfc_responses_sent", "classic_responses_sent", "bytes_sent"];
+                for rec in rdr.records().flatten() {
+                    let ip: Option<IpAddr> = col("ip_addr").and_then(|i| rec.get(i)).and_then(|x| x.parse().ok());
+                    let mut v = [0u64; 9];
+                    for (k, n) in names.iter().enumerate() {
+                        v[k] = col(n).and_then(|i| rec.get(i)).and_then(|x| x.parse().ok()).unwrap_or(u64::MAX);
+                    }
+                    if let Some(ip) = ip {
+                        rows.insert(ip, v);
+                    }
+                }
+            }
+        }
+        let _ = std::fs::remove_dir_all(&dir);
+        if let Err(p) = r {
+            return ctx.fail("report-panic", p);
+        }
+        if !model.is_empty() && (files != 1 || rows != model) {
+            return ctx.fail("persisted-report-differs-from-events", format!("{} file(s) written; decoded rows {:?} but the per-address sums of the recorded events are {:?}", files, rows, model));
+        }
+        ctx.class("c17:split:csv-report-decoded");
     }
     let nt = nw >= 2 && snaps.iter().sum::<usize>() >= 2;
     ctx.class(&format!("c17:split:workers={}:{}", nw, if nt { "multi-snapshot" } else { "simple" }));
@@ -292,16 +332,16 @@ fn check_traffic(ctx: &mut Ctx, c: &TrafficCase) -> Res {
 }
 
 fn op_strategy(bytes_fixed: bool) -> impl Strategy<Value = Op> {
-    (0usize..8, 0u8..3, if bytes_fixed { Just(7u16).boxed() } else { prop::sample::select(vec![0u16, 1, 7, 1500]).boxed() }).prop_map(|(k, addr, bytes)| Op { kind: KINDS[k], addr, bytes })
+    (0usize..8, 0u8..4, if bytes_fixed { Just(7u16).boxed() } else { prop::sample::select(vec![0u16, 1, 7, 1500]).boxed() }).prop_map(|(k, addr, bytes)| Op { kind: KINDS[k], addr, bytes })
 }
 
 pub fn run(ctx: &mut Ctx) -> Vec<Violation> {
     install_logger(log::LevelFilter::Off);
     let t = ctx.tier;
     let mut out = vec![];
-    // bounded-exhaustive: all histories of length <= L over 24 ops (8 kinds x 3 addresses) x limits 1..=3
+    // bounded-exhaustive: all histories of length <= L over 32 ops (8 kinds x 4 addresses) x limits 1..=3
     let max_len: u32 = t.pick(4, 5);
-    let per_limit: u64 = (0..=max_len).map(|l| 24u64.pow(l)).sum();
+    let per_limit: u64 = (0..=max_len).map(|l| 32u64.pow(l)).sum();
     let total = per_limit * 3;
     let v = run_enum(
         ctx,
@@ -312,7 +352,7 @@ pub fn run(ctx: &mut Ctx) -> Vec<Violation> {
             let mut r = i % per_limit;
             let mut len = 0u32;
             loop {
-                let c = 24u64.pow(len);
+                let c = 32u64.pow(len);
                 if r < c {
                     break;
                 }
@@ -321,8 +361,8 @@ pub fn run(ctx: &mut Ctx) -> Vec<Violation> {
             }
             let mut ops = vec![];
             for _ in 0..len {
-                let d = (r % 24) as usize;
-                r /= 24;
+                let d = (r % 32) as usize;
+                r /= 32;
                 ops.push(Op { kind: KINDS[d % 8], addr: (d / 8) as u8, bytes: 7 });
             }
             History { limit, ops }
@@ -330,7 +370,7 @@ pub fn run(ctx: &mut Ctx) -> Vec<Violation> {
         |ctx, h| check_history(ctx, h),
     );
     if v.is_empty() && ctx.shard == 0 {
-        ctx.stats.exhaustive_spaces.push(format!("all {} histories of length 0..={} over 24 operations (8 kinds x 3 addresses) x limits 1..=3", total, max_len));
+        ctx.stats.exhaustive_spaces.push(format!("all {} histories of length 0..={} over 32 operations (8 kinds x 4 addresses incl. an IPv4-mapped IPv6 one) x limits 1..=3", total, max_len));
         ctx.sample("exh-histories", 1, &History { limit: 1, ops: vec![Op { kind: Kind::ClassicReq, addr: 0, bytes: 7 }, Op { kind: Kind::RfcResp, addr: 1, bytes: 7 }] });
     }
     out.extend(v);
@@ -338,11 +378,14 @@ pub fn run(ctx: &mut Ctx) -> Vec<Violation> {
     let hist = (1u8..=3, prop_oneof![3 => vec_of(op_strategy(false).boxed(), 0usize..=60), 1 => vec_of(op_strategy(false).boxed(), 1_000usize..=10_000)]).prop_map(|(limit, ops)| History { limit, ops });
     out.extend(run_prop(ctx, "random-histories", t.pick(20_000, 200_000), 500, hist, |ctx, h| check_history(ctx, h)));
     // splits across workers with snapshot points
-    let split = (1u8..=4, vec_of((0u8..4, op_strategy(false), prop::bool::weighted(0.15)).boxed(), 0usize..=80)).prop_map(|(workers, events)| SplitCase { workers, events });
+    let split = (1u8..=4, vec_of((0u8..4, op_strategy(false), prop::bool::weighted(0.15)).boxed(), 0usize..=80)).prop_map(|(workers, events)| SplitCase { csv: false, workers, events });
     out.extend(run_prop(ctx, "worker-splits", t.pick(4_000, 40_000), 300, split, |ctx, c| {
         ctx.sample("worker-splits", 1, c);
         check_split(ctx, c)
     }));
+    // the same with the reporter persisting its map: the decoded zstd CSV must carry the same sums
+    let split_csv = (1u8..=4, vec_of((0u8..4, op_strategy(false), prop::bool::weighted(0.15)).boxed(), 1usize..=60)).prop_map(|(workers, events)| SplitCase { csv: true, workers, events });
+    out.extend(run_prop(ctx, "worker-splits-csv", t.pick(400, 8_000), 200, split_csv, |ctx, c| check_split(ctx, c)));
     // traffic served by an in-process server
     let step = vec_of((0u8..16, prop_oneof![3 => std_req().prop_map(Dgram::Std), 2 => any_dgram()]).prop_map(|(sock, d)| Send { sock, d }).boxed(), 0usize..=40);
     let traffic = (seed32(), prop::sample::select(vec![1u8, 3, 16, 64]), prop::bool::weighted(0.15), proptest::collection::vec(step, 1..=3)).prop_map(|(seed, batch_size, stats, steps)| TrafficCase { seed, batch_size, stats, steps });
@@ -357,7 +400,7 @@ pub fn replay(ctx: &mut Ctx, sub: &str, case: &Value) -> Res {
     install_logger(log::LevelFilter::Off);
     match sub {
         "exh-histories" | "random-histories" => replay_case::<History, _>(ctx, case, |ctx, h| check_history(ctx, h)),
-        "worker-splits" => replay_case::<SplitCase, _>(ctx, case, |ctx, c| check_split(ctx, c)),
+        "worker-splits" | "worker-splits-csv" => replay_case::<SplitCase, _>(ctx, case, |ctx, c| check_split(ctx, c)),
         "traffic" => replay_case::<TrafficCase, _>(ctx, case, |ctx, c| check_traffic(ctx, c)),
         _ => Err(viol("bad-replay-file", format!("unknown sub {}", sub))),
     }
